@@ -1,8 +1,9 @@
-from .checks import deps
+from .checks import deps, pipeline
 
 CHECKS = {
     "C05": lambda tier: deps.run_property("C05", tier),
     "C06": lambda tier: deps.run_property("C06", tier),
     "C07": lambda tier: deps.run_property("C07", tier),
+    "C10": lambda tier: pipeline.run_c10(tier),
     "C16": lambda tier: deps.run_c16(tier),
 }
